@@ -135,15 +135,15 @@ Definition is_signal (o : outcome) : bool := match o with Signal _ => true | _ =
 Definition is_crash (o : outcome) : bool := match o with Crash => true | _ => false end.
 
 Lemma w_div_signals c : fx_div c = false -> is_run_of (pipeline c w_div 10) is_signal = true.
-Proof. destruct c as [a b c0 d e f g h i]; intros H; simpl in H; subst; destruct a, b, c0; vm_compute; reflexivity. Qed.
+Proof. destruct c as [a b c0 d e f g h i j]; intros H; simpl in H; subst; destruct a, b, c0, j; vm_compute; reflexivity. Qed.
 Lemma w_mod_signals c : fx_div c = false -> is_run_of (pipeline c w_mod 10) is_signal = true.
-Proof. destruct c as [a b c0 d e f g h i]; intros H; simpl in H; subst; destruct a, b, c0; vm_compute; reflexivity. Qed.
+Proof. destruct c as [a b c0 d e f g h i j]; intros H; simpl in H; subst; destruct a, b, c0, j; vm_compute; reflexivity. Qed.
 Lemma w_substr_crashes c : fx_substr c = false -> is_run_of (pipeline c w_substr 10) is_crash = true.
-Proof. destruct c as [a b c0 d e f g h i]; intros H; simpl in H; subst; destruct a, b, c0; vm_compute; reflexivity. Qed.
+Proof. destruct c as [a b c0 d e f g h i j]; intros H; simpl in H; subst; destruct a, b, c0, j; vm_compute; reflexivity. Qed.
 Lemma w_cycle_crashes c : fx_print c = false -> is_run_of (pipeline c w_cycle 10) is_crash = true.
-Proof. destruct c as [a b c0 d e f g h i]; intros H; simpl in H; subst; destruct a, b, c0; vm_compute; reflexivity. Qed.
+Proof. destruct c as [a b c0 d e f g h i j]; intros H; simpl in H; subst; destruct a, b, c0, j; vm_compute; reflexivity. Qed.
 Lemma w_fnrange_crashes c : fx_fnrange c = false -> pipeline c w_fnrange 10 = PVerifyCrash.
-Proof. destruct c as [a b c0 d e f g h i]; intros H; simpl in H; subst; destruct a, b; vm_compute; reflexivity. Qed.
+Proof. destruct c as [a b c0 d e f g h i j]; intros H; simpl in H; subst; destruct a, b, j; vm_compute; reflexivity. Qed.
 Lemma w_sec_pipeline c : fx_sec c = false -> pipeline c w_sec 10 = PLoadCrash.
 Proof. intros H. unfold pipeline. rewrite (w_sec_crashes c H). reflexivity. Qed.
 Lemma w_slen_pipeline c : fx_slen c = false -> pipeline c w_slen 10 = PLoadCrash.
@@ -204,7 +204,7 @@ Definition finished_with (p : pipe) (ret : Z) (out : list byte) : bool :=
   match p with PRun _ (Finished (VInt z) s) => (z =? ret)%Z && bytes_eq (rev (st_out s)) out | _ => false end.
 Definition trapped_with (p : pipe) (code : N) (out : list byte) : bool :=
   match p with PRun _ (VmError e s) => (e =? code) && bytes_eq (rev (st_out s)) out | _ => false end.
-Ltac cfg_cases H := match goal with c : cfg |- _ => destruct c as [a b c0 d e f g h i]; simpl in H; subst; repeat match goal with x : bool |- _ => destruct x end end.
+Ltac cfg_cases H := match goal with c : cfg |- _ => destruct c as [a b c0 d e f g h i j]; simpl in H; subst; repeat match goal with x : bool |- _ => destruct x end end.
 (* pinned VM: the read yields void, "void\n" is printed, main returns 0 *)
 Lemma w_at_continues c : fx_arr c = false -> finished_with (pipeline c (w_at 5) 100) 0 [118; 111; 105; 100; 10] = true.
 Proof. intros H; cfg_cases H; vm_compute; reflexivity. Qed.
